@@ -10,7 +10,11 @@
    (OTLP, D5), kept so that the refutations of the old code can be stated. *)
 From Coq Require Import String.
 From Coq Require Import List ZArith.
-From GS Require Import Base.Bytes Model.GoPartial Model.Histogram Model.Stats Model.FlushPartial.
+From GS Require Import Base.Bytes.
+From GS Require Import Model.GoPartial.
+From GS Require Import Model.Histogram.
+From GS Require Import Model.Stats.
+From GS Require Import Model.FlushPartial.
 Import ListNotations.
 Local Open Scope Z_scope.
 
